@@ -286,7 +286,7 @@ func TestVerifC11(t *testing.T) {
 		}
 	}
 	// Part 2: PRNG
-	totalR := c.Share(c.Pick(60000, 400000))
+	totalR := c.Share(c.Pick(200000, 800000))
 	const rb = 250
 	for i := 0; i < totalR; i += rb {
 		n := caseNo
